@@ -66,7 +66,7 @@ CHECKS = {
             "sizes and incoming rates at two interior points of every interval of the common refinement of both sides' boundaries (exhaustive for "
             "piecewise-exponential functions), lineage-movement matrices at every event time; Model/ToMs.v is compared bit for bit with the implementation's "
             "event list; graphs outside the class must be refused. Theorems in coq/Props/C07.v concern the model's event list (numbering, sorting, refusal)."),
-    "C08": ("translation_validation", "ms semantics run on every generated command and compared with the graph from_ms returns + exact correspondence of Model/FromMs.v + Coq proof that every returned graph is Valid",
+    "C08": ("translation_validation", "ms semantics run on every generated command and compared with the graph from_ms returns + exact correspondence of Model/FromMs.v + Coq proofs: every returned graph is Valid; the interpreter refines the ms semantics for populations and the migration matrix; migration records are the inverse of the matrix history",
             "Generated command lines over all supported options (time coincidences, shuffled order, ignored options) are converted by the implementation; the "
             "returned graph is compared with the ms semantics of the command (sizes, rates, lineage movements), validated, and compared exactly with the model "
             "of build_graph (whose result is proved Valid); ignored options, optional names and the order of commuting same-time options are checked. "
